@@ -412,8 +412,31 @@ func (r *Real) Observe(st *model.State, cfg ObsCfg) *Mismatch {
 			eq[p] = true
 			eq[[2]int{p[1], p[0]}] = true
 		}
+		// distinct pairs first (in an order that varies between visits), reflexive pairs last: an implementation
+		// that remembers its last comparison must not be refreshed by x.Equals(x) before the interesting call
+		type pair struct{ a, b int }
+		var pairs []pair
 		for _, a := range ids {
 			for _, b := range ids {
+				if a != b {
+					pairs = append(pairs, pair{a, b})
+				}
+			}
+		}
+		if r.Calls%2 == 1 {
+			for i, j := 0, len(pairs)-1; i < j; i, j = i+1, j-1 {
+				pairs[i], pairs[j] = pairs[j], pairs[i]
+			}
+		}
+		nd := len(pairs)
+		for _, a := range ids {
+			pairs = append(pairs, pair{a, a})
+		}
+		// ... and the distinct pairs once more, so that a visit both starts and ends with them
+		pairs = append(pairs, pairs[:nd]...)
+		for _, pr := range pairs {
+			a, b := pr.a, pr.b
+			{
 				ta, tb := h[a-1].T, h[b-1].T
 				if ta != tb || (ta != "L" && ta != "O") {
 					continue
